@@ -12,10 +12,7 @@ PROP = {'drive': ['Glyf'], 'modules': ['SfntV.Props.C11'],
  'areas': [('glyf', 1500, 12000)],
  'rule': 'distinct case lines (glyph list / glyf+loca tables / simple-glyph bytes); non-trivial = at least two '
          'glyphs, a decodable mutated table, a composite glyph, or a simple glyph with at least one contour',
- 'partial': ["clause 'golang.org/x/image LoadGlyph on a font carrying the encoded tables' (second independent "
-             'decoder as an extra oracle) is not wired; the independent implementation is the Lean specification '
-             'decoder GlyfSpec.decodeSimple',
-             'loca format choice: the code switches to the long format above 0xFFFF bytes (the short format would '
+ 'partial': ['loca format choice: the code switches to the long format above 0xFFFF bytes (the short format would '
              'reach 2*0xFFFF = 131070); C11_loca states the rule the code implements and proves that the announced '
              'format always represents the offsets — the 128 KiB figure of the property text is not what the code does'],
  'modelled_not_verified': ['Go int16/uint16 header fields are carried as 16-bit patterns (bijection); slices are '
@@ -46,7 +43,10 @@ LEVEL = {'text': 'Proof: for every well-formed glyph list (nil, simple and compo
          'by byte-exact correspondence of Encode, Decode (generated, mutated and the Go Regular font), '
          'SimpleGlyph.Decode (incl. panic outcome), Components/FixComponents, by direct evaluation of the '
          'specification decoder, the loca facts, the round trip and the fixed point on the real code\'s output, and '
-         'by regenerated constants (glyfAlign, flag bits, short-loca threshold).',
+         'by regenerated constants (glyfAlign, flag bits, short-loca threshold). Extra oracle: for simple glyphs of the '
+         'twelve Go fonts (6 per font in quick runs, all in thorough runs) the Bezier segments derived from the '
+         'specification outline equal those of golang.org/x/image/font/sfnt LoadGlyph; glyphs with 255..65536 points '
+         '(last endPtsOfContours 0xFFFE / 0xFFFF) are in every run (generated and corpus/C11/boundary.case).',
  'note': 'Trusted: Lean kernel + 3 standard axioms; hand-written model mirrors glyf.go/loca.go/composite.go/simple.go '
          '(simple.go as repaired for DESIGN §9 #6) as checked by sampled correspondence; GlyfSpec is my reading of '
          'the OpenType glyf/loca chapters.',
